@@ -1848,11 +1848,22 @@ fn partial_name_clash(s: &str) -> String {
 
 fn number_name_clash(s: &str) -> String {
     // name one infoset of player 1 with the number of an unnamed infoset of player 1
+    // (unnamed: no node of the infoset carries a name - a file may leave the name of a named
+    // infoset out at some of its nodes)
     let mut unnamed: Option<String> = None;
+    let mut named: BTreeSet<String> = BTreeSet::new();
     for line in s.lines() {
         if line.starts_with("p \"\" 1 ") {
             let parts: Vec<&str> = line.splitn(6, ' ').collect();
-            if parts.len() >= 5 && parts[4] == "{" {
+            if parts.len() >= 5 && parts[4] != "{" {
+                named.insert(parts[3].to_string());
+            }
+        }
+    }
+    for line in s.lines() {
+        if line.starts_with("p \"\" 1 ") {
+            let parts: Vec<&str> = line.splitn(6, ' ').collect();
+            if parts.len() >= 5 && parts[4] == "{" && !named.contains(parts[3]) {
                 unnamed = Some(parts[3].to_string());
                 break;
             }
